@@ -265,9 +265,14 @@ class H2Protocol:
                 if self.keep_alive_requests > self.config.keep_alive_max_requests:
                     self.connection.close_connection()
             elif isinstance(event, h2.events.DataReceived):
-                await self.streams[event.stream_id].handle(
-                    Body(stream_id=event.stream_id, data=event.data)
-                )
+                try:
+                    await self.streams[event.stream_id].handle(
+                        Body(stream_id=event.stream_id, data=event.data)
+                    )
+                except KeyError:
+                    # Response sent before full request received,
+                    # nothing to do already closed.
+                    pass
                 self.connection.acknowledge_received_data(
                     event.flow_controlled_length, event.stream_id
                 )
